@@ -32,6 +32,7 @@ Lemma handle_update_conns st u recv : ns_conns (fst (handle_update st u recv)) =
 Proof.
   unfold handle_update.
   destruct (u_origin u =? 0); [reflexivity|].
+  destruct (negb (conns_pos (u_conns u))); [reflexivity|].
   destruct (u_origin u =? ns_self st).
   { destruct (u_epoch u =? ns_epoch st); [reflexivity|].
     destruct (u_susp u =? ns_epoch st); [reflexivity|].
@@ -103,6 +104,7 @@ Lemma step_relays_bound st u recv :
 Proof.
   unfold handle_update.
   destruct (u_origin u =? 0); [simpl; lia|].
+  destruct (negb (conns_pos (u_conns u))); [simpl; lia|].
   destruct (u_origin u =? ns_self st).
   { destruct (u_epoch u =? ns_epoch st); [simpl; lia|].
     destruct (u_susp u =? ns_epoch st); [simpl; lia|].
